@@ -9,6 +9,12 @@ def run(pid, tier):
         if pid in ("C02", "C11"):
             import dhcp_policy
             return dhcp_policy.check(pid, tier)
+        if pid == "C14":
+            import dns_wire
+            return dns_wire.check_c14(pid, tier)
+        if pid == "C04":
+            import dns_wire
+            return dns_wire.check_c04(pid, tier)
         if pid == "C12":
             import dhcp_wire
             return dhcp_wire.check(pid, tier)
